@@ -14,7 +14,7 @@ import os
 
 from .. import common
 from ..common import Check, mk_case, snip
-from ..gen import hostile, progs
+from ..gen import feat_data, hostile, progs
 from . import modelcheck, C01
 
 
@@ -54,6 +54,9 @@ def run(tier):
     for i in range(500 if quick else 20000):
         src, mods = progs.generate(r2.fork(str(i)), prof)
         gen.append(("hostile/%d" % i, src, mods))
+    r3 = rng.fork("itermut")
+    for i in range(200 if quick else 5000):
+        gen.append(("itermut/%d" % i, feat_data.iter_mutation_program(r3.fork(str(i))), []))
     ck.coverage["builtin_calls_enumerated"] = ncalls
     ck.coverage["method_names_swept"] = names
     ck.coverage["value_pool_size"] = len(hostile.POOL)
